@@ -10,6 +10,12 @@ import lena.output
 TEMPLATE = {"M": "m_{{%s}}", "W": "w_{{%s}}", "C": "c%d_{{%s}}.pkl"}
 
 
+def fields(key):
+    """'{{Ka}}' for the key Ka, '{{Ka}}-{{Kb}}' for the two-field key 'Ka+Kb' (the inner braces come
+    from the template)."""
+    return "}}-{{".join(key.split("+"))
+
+
 class Probe(object):
     """Ordinary data element: a callable that passes every value on and records its context."""
 
@@ -75,13 +81,13 @@ def _leaf(spec, path, b):
     elif kind == "U":
         el = lena.meta.UpdateContextFromStatic()
     elif kind == "M":
-        el = lena.output.MakeFilename(TEMPLATE["M"] % spec[1])
+        el = lena.output.MakeFilename(TEMPLATE["M"] % fields(spec[1]))
     elif kind == "W":
-        el = lena.output.Write(TEMPLATE["W"] % spec[1], verbose=False)
+        el = lena.output.Write(TEMPLATE["W"] % fields(spec[1]), verbose=False)
     elif kind == "C":
         uid = b.uid()
         b.uids[path] = uid
-        el = lena.flow.Cache(TEMPLATE["C"] % (uid, spec[1]))
+        el = lena.flow.Cache(TEMPLATE["C"] % (uid, fields(spec[1])))
     elif kind == "D":
         el = Probe()
     elif kind == "acc":
@@ -156,11 +162,11 @@ def observe_leaf(spec, path, b):
         return None
     if kind == "W":
         name = el.output_directory
-        return None if name == TEMPLATE["W"] % spec[1] else name
+        return None if name == TEMPLATE["W"] % fields(spec[1]) else name
     if kind == "C":
         uid = b.uids[path]
         name = el._filename
-        return None if name == TEMPLATE["C"] % (uid, spec[1]) else _norm_cache_name(name, uid)
+        return None if name == TEMPLATE["C"] % (uid, fields(spec[1])) else _norm_cache_name(name, uid)
     raise ValueError(spec)
 
 
